@@ -296,7 +296,7 @@ package jrpc2
 // records the FIRST cause.
 //@ func (*Server).stopLocked
 //@   requires wfServer(s) && held(s.mu) && Server_mu_inv(s) && err != nil
-//@   modifies s.err, s.ch, map(s.used), fired, qlen(fieldaddr(s, inq)), chCloses(s.ch)
+//@   modifies s.err, s.ch, map(s.used), fired, qlen(fieldaddr(s, inq)), chCloses(s.ch), retained
 //@   ensures[C08:stopped] s.ch == nil
 //@   ensures[C08:first-cause] old(s.ch) != nil ==> s.err == err
 //@   ensures[C08:idempotent] old(s.ch) == nil ==> s.err == old(s.err) && qlen(fieldaddr(s, inq)) == old(qlen(fieldaddr(s, inq))) && forall(k string, in(s.used, k) == old(in(s.used, k))) && forall(f Int, fired(f) == old(fired(f)))
@@ -306,16 +306,24 @@ package jrpc2
 //@   ensures[C10:no-second-close] old(s.ch) == nil ==> forall(c Iface, chCloses(c) == old(chCloses(c)))
 //@   ensures Server_mu_inv(s)
 //@   at call.Close#1 assert[C10:close-under-lock] held(s.mu)
-//@   loop 1 invariant qlen(fieldaddr(s, inq)) >= 0
+//@   at call.Add#1 assert[C03:requeued-one-by-one-in-order] len(arg1) == 1 && arg1[0] == keep[rangeindex + 1] && retained(arg1[0])
+//@   loop 1 invariant qlen(fieldaddr(s, inq)) >= 0 && forall(i int, 0 <= i && i < len(keep) ==> keep[i] != nil && retained(keep[i]))
 //@   loop 2 invariant forall(k string, in(s.call, k) ==> slotOpen(lookup(s.call, k)))
 //@   loop 3 invariant forall(k string, in(s.used, k) ==> lookup(s.used, k) != nil && k != "") && forall(k string, visited(loop3, k) ==> !in(s.used, k))
 
-// The Each callback of stopLocked: keeps M4 while releasing queued calls.
+// The Each callback of stopLocked: keeps M4 while releasing queued calls, and
+// retains every queued notification - a member with a method, no reply fields
+// and no id, where an id spelled null counts as absent (retained(m): ghost).
+//@ ghost retained(Int) Bool
+//@ pure isNote(m *jmessage) Bool = m != nil && m.M != "" && m.E == nil && m.R == nil && (m.ID == nil || isNullText(str(m.ID)))
 //@ func (*Server).stopLocked$1
 //@   requires wfServer(s) && held(s.mu) && Server_mu_inv(s)
-//@   requires forall(i int, 0 <= i && i < len(keep) ==> keep[i] != nil)
-//@   modifies map(s.used), fired, keep
-//@   loop 1 invariant Server_mu_inv(s) && forall(i int, 0 <= i && i < len(keep) ==> keep[i] != nil)
+//@   requires forall(i int, 0 <= i && i < len(keep) ==> keep[i] != nil && retained(keep[i]))
+//@   modifies map(s.used), fired, keep, retained
+//@   at call.log#1 ghostset retained(req) = true
+//@   ensures[C08:notifications-retained] forall(i int, 0 <= i && i < len(cur) && isNote(cur[i]) ==> retained(cur[i]))
+//@   loop 1 invariant Server_mu_inv(s) && forall(i int, 0 <= i && i < len(keep) ==> keep[i] != nil && retained(keep[i]))
+//@   loop 1 invariant forall(j int, 0 <= j && j <= rangeindex && isNote(cur[j]) ==> retained(cur[j]))
 
 //@ func (*Server).Stop
 //@   requires wfServer(s) && !held(s.mu)
@@ -1009,13 +1017,12 @@ package jrpc2
 // tells the shape (facts about the JSON grammar, trusted).
 //@ spec jsonFirst(Str) Int
 //@ axiom forall(s Str, jsonValid(s) ==> (jsonIsArray(s) == (jsonFirst(s) == '[')) && (jsonIsObject(s) == (jsonFirst(s) == '{')) && (jsonIsString(s) == (jsonFirst(s) == '"')) && (jsonIsNull(s) ==> jsonFirst(s) == 'n') && jsonFirst(s) != 0)
-//@ axiom forall(s Str, len(s) == 0 ==> jsonFirst(s) == 0)
 // Values handed out by the decoder carry no surrounding whitespace.
 //@ axiom forall(s Str, k Str, jsonIsObject(s) && jsonHasKey(s, k) ==> jsonFirst(jsonMember(s, k)) == jsonMember(s, k)[0] && (jsonIsNull(jsonMember(s, k)) == isNullText(jsonMember(s, k))))
 //@ axiom forall(s Str, i Int, jsonIsArray(s) && 0 <= i && i < jsonArrayLen(s) ==> jsonFirst(jsonElem(s, i)) == jsonElem(s, i)[0] && (jsonIsNull(jsonElem(s, i)) == isNullText(jsonElem(s, i))))
+//@ axiom forall(s Str, jsonFirst(s) == (allSpace(s) ? 0 : firstNonSpaceByte(s)))
 //@ func firstByte
-//@   trusted
-//@   ensures result == jsonFirst(str(data))
+//@   ensures[C02:first-significant-byte] result == jsonFirst(str(data))
 
 // idText(t): the text t is acceptable as a request id (absent, null, a string
 // or a number - judged by its first byte, as isValidID does).
